@@ -2,8 +2,10 @@ package main
 
 import (
 	"go/constant"
+	"go/token"
 	"go/types"
 	"regexp"
+	"sort"
 	"strings"
 
 	"golang.org/x/tools/go/ssa"
@@ -57,7 +59,7 @@ func literalsOf(s, t string) []string {
 }
 
 func checkC11(c *Check) {
-	c.Explanation = "Decided over the Kubernetes builder/client package: (R1) every call of a namespaced typed-client accessor receives the lease namespace lidNS(<lease id>) (directly, through a local, or through the builder's ns() which returns it); the two frozen exceptions are the read-only all-namespaces pod scan and the provider's own CRD namespace whose object name is lidNS; cluster-scoped namespace calls use lidNS as the name; (R2) pod security: Privileged, AllowPrivilegeEscalation and AutomountServiceAccountToken point to a local whose only value is false, no host namespace / service account / volume / capability field is ever set, exactly one container per pod; (R3) limits come from the leased cpu/memory/storage values, requests from the commit-level helper applied to the same values, nothing else writes those maps, and the helper returns anything but its input only when the commit factor is above 1; (R4) the namespace is lower(base32hex-nopad(sha224(lease id string))) and the lease id string covers all five id fields; (R5) network policy shape: default policy selects all pods with both policy types, ingress peers are only the lease namespace or the ingress controller, public egress excepts the three private ranges and the only other IP block rule is restricted to udp/53, per-service policies open only ports appended under global-and-not-ingress, with a per-service port list, selecting the service's pods; all policies live in the lease namespace; (R6) every generated object carries the lease-namespace label; (R7) every typed-client Create/Update in the apply functions is handed the builder's create() result or its update(existing) result, the latter only if that update() rewrites the Spec."
+	c.Explanation = "Decided over the Kubernetes builder/client package: (R1) every call of a namespaced typed-client accessor receives the lease namespace lidNS(<lease id>) (directly, through a local, or through the builder's ns() which returns it); the two frozen exceptions are the read-only all-namespaces pod scan and the provider's own CRD namespace whose object name is lidNS; cluster-scoped namespace calls use lidNS as the name; (R2) pod security: Privileged, AllowPrivilegeEscalation and AutomountServiceAccountToken point to a local whose only value is false, no host namespace / service account / volume / capability field is ever set, exactly one container per pod; (R3) limits come from the leased cpu/memory/storage values, requests from the commit-level helper applied to the same values, nothing else writes those maps, and the helper returns anything but its input only when the commit factor is above 1; (R4) the namespace is lower(base32hex-nopad(sha224(lease id string))) and the lease id string covers all five id fields; (R5) network policy shape: default policy selects all pods with both policy types, ingress peers are only the lease namespace or the ingress controller, public egress excepts the three private ranges and the only other IP block rule is restricted to udp/53, per-service policies open only ports appended under global-and-not-ingress, with a per-service port list, selecting the service's pods; all policies live in the lease namespace; (R6) every generated object carries the lease-namespace label; (R7) every typed-client Create/Update in the apply functions is handed the builder's create() result or its update(existing) result, the latter only if that update() rewrites the Spec; (R8) the error of every such write can reach the apply function's own error result."
 	c.NotDecided = "requests <= limits as arithmetic inside the helper; injectivity of the namespace beyond hash collisions; Kubernetes' own enforcement"
 	l := c.L
 	fns := l.pkgFuncs(kubePkg)
@@ -229,6 +231,69 @@ func checkC11(c *Check) {
 	for k, v := range want {
 		c.Ob("R2", shortName(k)+" is set explicitly", fns[0].Pos(), v == "set", "")
 	}
+	// every pod spec / container security context that is BUILT (fields stored into a fresh object rather than into
+	// one received from the cluster) carries the pinned fields — a second construction site must not forget them
+	type built struct {
+		fields map[string]bool
+		pos    token.Pos
+		fn     *ssa.Function
+	}
+	builtAt := map[string]*built{}
+	var order []string
+	for _, fn := range fns {
+		eachInstr(fn, func(i ssa.Instruction) {
+			st, ok := i.(*ssa.Store)
+			if !ok {
+				return
+			}
+			fa, ok := st.Addr.(*ssa.FieldAddr)
+			if !ok {
+				return
+			}
+			tn, f := structFieldOf(fa)
+			if tn != "k8s.io/api/core/v1.PodSpec" && tn != "k8s.io/api/core/v1.SecurityContext" {
+				return
+			}
+			// base of the address chain
+			base := fa.X
+			for {
+				if inner, isFA := base.(*ssa.FieldAddr); isFA {
+					base = inner.X
+					continue
+				}
+				if ia, isIA := base.(*ssa.IndexAddr); isIA {
+					base = ia.X
+					continue
+				}
+				break
+			}
+			if _, fresh := base.(*ssa.Alloc); !fresh {
+				return
+			}
+			key := fnName(fn) + "|" + shortName(tn) + "|" + Sym(fa.X)
+			if builtAt[key] == nil {
+				builtAt[key] = &built{fields: map[string]bool{}, pos: st.Pos(), fn: fn}
+				order = append(order, key)
+			}
+			builtAt[key].fields[f] = true
+		})
+	}
+	sort.Strings(order)
+	nbuilt := 0
+	for k, key := range order {
+		bt := builtAt[key]
+		parts := strings.SplitN(key, "|", 3)
+		nbuilt++
+		switch parts[1] {
+		case "v1.PodSpec":
+			c.Ob("R2", "pod spec #"+itoa(k+1)+" built in "+fnName(bt.fn)+" turns the service-account token off", bt.pos, bt.fields["AutomountServiceAccountToken"], "a pod spec is built without AutomountServiceAccountToken=false: pods applied from it get the namespace's service-account token")
+		case "v1.SecurityContext":
+			c.Ob("R2", "container security context #"+itoa(k+1)+" built in "+fnName(bt.fn)+" pins privilege fields", bt.pos, bt.fields["Privileged"] && bt.fields["AllowPrivilegeEscalation"], "a container security context is built without Privileged=false / AllowPrivilegeEscalation=false")
+		}
+	}
+	if nbuilt < 2 {
+		c.Fail("C11-R2 lost instances: %d built pod specs / security contexts", nbuilt)
+	}
 
 	// ---- R3 limits / requests
 	cont := l.Func(kubePkg, "deploymentBuilder", "container")
@@ -372,6 +437,92 @@ func checkC11(c *Check) {
 		c.Fail("C11-R6 lost instances")
 	}
 	c.applyDiscipline(fns)
+	c.applyErrors(fns)
+}
+
+// applyErrors (R8): a failed write of a generated object is reported. In the apply functions the error result of
+// every typed-client Create/Update must be able to reach the function's own error result (through locals, phis and
+// wrapping calls); otherwise the deployment goes on as if the object (for example the lease's network policies)
+// were in place.
+func (c *Check) applyErrors(fns []*ssa.Function) {
+	n := 0
+	for _, fn := range fns {
+		if fn.Parent() != nil || !strings.HasPrefix(fn.Name(), "apply") || errResultIndex(fn) < 0 {
+			continue
+		}
+		for _, call := range callsInOwn(fn) {
+			cc := call.Common()
+			if !cc.IsInvoke() {
+				continue
+			}
+			m := cc.Method.Name()
+			full := calleeFull(call)
+			if (m != "Create" && m != "Update") || (!strings.Contains(full, "k8s.io/client-go/kubernetes/typed") && !strings.Contains(full, "pkg/client/clientset")) {
+				continue
+			}
+			cv, isCall := call.(*ssa.Call)
+			if !isCall {
+				continue
+			}
+			n++
+			c.Ob("R8", fnName(fn)+": a failed "+m+" is reported to the caller", call.Pos(), errFlowsToReturn(cv, fn), "the error of this write never reaches "+fn.Name()+"'s result (shadowed or dropped): the caller continues as if the object had been applied")
+		}
+	}
+	if n < 12 {
+		c.Fail("C11-R8 lost instances: %d typed-client writes in apply functions", n)
+	}
+}
+
+// errFlowsToReturn: the error result of call can reach an operand of a return of fn.
+func errFlowsToReturn(call *ssa.Call, fn *ssa.Function) bool {
+	seen := map[ssa.Value]bool{}
+	var work []ssa.Value
+	ri := call.Call.Signature().Results()
+	if ri.Len() == 1 {
+		work = append(work, call)
+	} else if call.Referrers() != nil {
+		for _, r := range *call.Referrers() {
+			if ex, ok := r.(*ssa.Extract); ok && ex.Index == ri.Len()-1 {
+				work = append(work, ex)
+			}
+		}
+	}
+	for len(work) > 0 {
+		v := work[0]
+		work = work[1:]
+		if seen[v] || v.Referrers() == nil {
+			continue
+		}
+		seen[v] = true
+		for _, r := range *v.Referrers() {
+			switch x := r.(type) {
+			case *ssa.Return:
+				return true
+			case *ssa.Phi:
+				work = append(work, x)
+			case *ssa.MakeInterface:
+				work = append(work, x)
+			case *ssa.ChangeInterface:
+				work = append(work, x)
+			case *ssa.Store:
+				if x.Val == v {
+					if a, isA := x.Addr.(*ssa.Alloc); isA && a.Referrers() != nil {
+						for _, ar := range *a.Referrers() {
+							if ld, isLd := ar.(*ssa.UnOp); isLd && ld.X == ssa.Value(a) {
+								work = append(work, ld)
+							}
+						}
+					}
+				}
+			case *ssa.Call:
+				// wrapping helpers hand the error on
+				if n := calleeFull(x); strings.Contains(n, "errors.") || strings.HasSuffix(n, ".Errorf") {
+					work = append(work, x)
+				}
+			}
+		}
+	}
+	return false
 }
 
 // applyDiscipline (R7): what reaches the cluster is what the builders generate. The object handed to a typed
